@@ -102,7 +102,46 @@ func walkBothValue(t *schema.Type, v reflect.Value, n *wire.Node, msg []byte, pa
 			walkBothValue(t.Elem, v.Index(i), n.Elems[i], msg, fmt.Sprintf("%s[%d]", path, i), fn)
 		}
 	case schema.Map:
-		if n.KT != t.Key.WT() || n.ET != t.Elem.WT() || t.Key.Ptr {
+		if n.KT != t.Key.WT() || n.ET != t.Elem.WT() {
+			return
+		}
+		if t.Key.Ptr {
+			// pointer-to-struct keys: match each wire entry with the Go entry whose
+			// key struct has the same canonical value (quadratic, maps are small)
+			type ent struct {
+				k, v  reflect.Value
+				canon string
+				used  bool
+			}
+			var ents []*ent
+			it := v.MapRange()
+			for it.Next() {
+				if it.Key().IsNil() {
+					continue
+				}
+				ents = append(ents, &ent{k: it.Key(), v: it.Value(), canon: string(ref.Canon(t.Key.S, it.Key().Elem(), ref.CmpOpts{}))})
+			}
+			freq := map[string]int{}
+			for _, e := range ents {
+				freq[e.canon]++
+			}
+			for i := 0; i+1 < len(n.Elems); i += 2 {
+				kn := n.Elems[i]
+				tmp := reflect.New(t.Key.S.Go)
+				ref.InitDefault(t.Key.S, tmp.Elem())
+				if _, _, err := ref.Decode(t.Key.S, msg[kn.Start:kn.End], tmp.Elem()); err != nil {
+					continue
+				}
+				want := string(ref.Canon(t.Key.S, tmp.Elem(), ref.CmpOpts{}))
+				for _, e := range ents {
+					if !e.used && e.canon == want && freq[want] == 1 { // equal-valued keys cannot be told apart: not aligned
+						e.used = true
+						walkBoth(t.Key.S, e.k.Elem(), kn, msg, fmt.Sprintf("%s{key%d}", path, i/2), fn)
+						walkBothValue(t.Elem, e.v, n.Elems[i+1], msg, fmt.Sprintf("%s{val%d}", path, i/2), fn)
+						break
+					}
+				}
+			}
 			return
 		}
 		if t.Elem.K != schema.StructK && t.Elem.K != schema.List && t.Elem.K != schema.Set && t.Elem.K != schema.Map {
